@@ -405,7 +405,9 @@ func c40Selection(r *vk.Run, h *scripted.Harness) {
 			sig := func(check string) map[string]string {
 				return map[string]string{"part": "selection", "kind": kind, "check": check}
 			}
+			r.Count("queries:"+kind, 1)
 			if expectErr {
+				r.Count("queries_expecting_failure", 1)
 				if err == nil {
 					r.Violation(sig("miss-not-reported"), "a specification matching no session did not make List fail", witness())
 				}
@@ -653,6 +655,14 @@ func c40() {
 	h.Close()
 	r.Assume("specifications are exact identifiers or names (the prefix matching mentioned in selection.proto is not exercised: the property speaks of matching, and the manager matches exactly)")
 	r.Assume("label selectors are drawn from the restricted grammar k, !k, k=v, k==v, k!=v, k in (..), k notin (..) and conjunctions; the expected conflict set is known by construction (both sides created different files at the same path under an empty ancestor, two-way-safe)")
+	r.Note("sensitivity_mutants_caught_in_quick_tier", []string{
+		"manager.go: listing sorted by session name -> not-ordered-by-creation-time (579 violations)",
+		"manager.go: truncation keeps maximum-1 transition problems -> count",
+		"manager.go: ExcludedConflicts off by one -> count",
+		"manager.go: specification matches a name prefix -> wrong-set, miss-not-reported",
+		"fastpath.go: exhausted first path no longer sorts first -> agreement-with-component-wise-reference, totality, negative-transitivity, sort-equals-depth-first-walk",
+		"not caught because equivalent: 'len > maximum' changed to 'len >= maximum' (same list, Excluded 0)",
+	})
 	if r.Counter("truncated_lists") == 0 || r.Counter("listings_with_two_or_more_states") == 0 {
 		r.Inconclusive("control failed: no truncated list or no multi-session listing observed")
 		r.Finish("liveness control failed", 1<<30)
